@@ -52,6 +52,31 @@ func GenProgram(t *rapid.T, backend sim.Backend, nClients int) (keys []string, s
 			b.Causal = rapid.IntRange(0, 4).Draw(t, "causal") == 0
 		}
 		seq := []*sim.Step{b}
+		// unistore answers the prewrite of a not-pessimistically-locked key that still carries the txn's own
+		// pessimistic lock as a duplicate command without converting the lock (TiKV and mocktikv overwrite it), so
+		// the asynchronous rollback of a failed LockKeys can then remove the only lock of a committing txn. On
+		// unistore a pessimistic txn therefore never both locks and writes-without-locking one key: each key is
+		// either in its unlocked set (written without lock, never locked) or always locked first.
+		unlocked := map[string]bool{}
+		if pess && backend == sim.Uni {
+			for _, k := range keys {
+				if rapid.IntRange(0, 3).Draw(t, "unlockedkey") == 0 {
+					unlocked[k] = true
+				}
+			}
+		}
+		lockable := func(name string) (string, bool) {
+			var c []string
+			for _, k := range keys {
+				if !unlocked[k] {
+					c = append(c, k)
+				}
+			}
+			if len(c) == 0 {
+				return "", false
+			}
+			return rapid.SampledFrom(c).Draw(t, name), true
+		}
 		nOps := rapid.IntRange(1, 6).Draw(t, "nops")
 		for j := 0; j < nOps; j++ {
 			ops := []string{"get", "get", "batchget", "iter", "iterrev", "set", "set", "set", "insert", "delete"}
@@ -59,12 +84,27 @@ func GenProgram(t *rapid.T, backend sim.Backend, nClients int) (keys []string, s
 				ops = append(ops, "lock", "lock")
 			}
 			s := &sim.Step{Txn: i, Op: rapid.SampledFrom(ops).Draw(t, "op")}
+			if backend == sim.Uni && s.Op == "iterrev" {
+				// unistore's ReverseScan creates its iterator before setting the read ts and so returns versions
+				// newer than the snapshot (a limitation of that third-party store): reverse scans run on mocktikv only
+				s.Op = "iter"
+			}
 			switch s.Op {
-			case "get", "delete":
+			case "get":
 				s.Keys = []string{key("k")}
-			case "set", "insert":
+			case "delete", "set", "insert":
 				s.Keys = []string{key("k")}
-				s.Val = fmt.Sprintf("v%d.%d", i, j)
+				if s.Op != "delete" {
+					s.Val = fmt.Sprintf("v%d.%d", i, j)
+				}
+				if pess && backend == sim.Uni {
+					if unlocked[s.Keys[0]] && s.Op == "insert" {
+						s.Op = "set" // a pessimistic insert is a locked statement
+					}
+					s.LockFirst = !unlocked[s.Keys[0]] && s.Op != "insert"
+				} else {
+					s.LockFirst = pess && s.Op != "insert" && rapid.IntRange(0, 3).Draw(t, "lockfirst") != 0
+				}
 			case "batchget":
 				n := rapid.IntRange(1, 3).Draw(t, "n")
 				for x := 0; x < n; x++ {
@@ -93,7 +133,13 @@ func GenProgram(t *rapid.T, backend sim.Backend, nClients int) (keys []string, s
 			case "lock":
 				n := rapid.IntRange(1, 2).Draw(t, "n")
 				for x := 0; x < n; x++ {
-					s.Keys = append(s.Keys, key("k"))
+					if k, ok := lockable("k"); ok {
+						s.Keys = append(s.Keys, k)
+					}
+				}
+				if len(s.Keys) == 0 {
+					s.Op, s.Keys = "get", []string{key("k")}
+					break
 				}
 				switch rapid.IntRange(0, 3).Draw(t, "lockmode") {
 				case 1:
@@ -293,11 +339,16 @@ func nontrivial(recs []*sim.TxnRec, truth *sim.Truth) bool {
 
 const rule = "programs of 2-4 transactions (optimistic|pessimistic) over 2-5 shared keys on 3 simulated clients, step-wise interleaved by rapid: get, batch-get, iter, iter-reverse, set, insert (presume-not-exists; as a locked statement in pessimistic txns), delete, lock-keys (return-values / check-existence / lock-only-if-exists), commit, rollback; 0-3 region splits on/off data keys, 1 or 3 stores with leader transfers, TxnCommitBatchSize in {1, default}, CommitterConcurrency in {1, default}; tolerated faults on commit/lock calls: NotLeader, EpochNotMatch, ServerIsBusy, StaleCommand, lost prewrite response, and gates that park the i-th Prewrite/Commit/PessimisticLock RPC while a step of another transaction, a split or a leader transfer runs; afterwards every lock expires (virtual clock), an auditor client resolves all locks and the raw MVCC records are read back; oracle: history rules R-ack, R-read (every read = newest version with commit ts <= the read's snapshot ts in the final truth, or the own buffered write), R-ww (overlapping committed writers share no key), R-lock, R-insert, R-ext (acked commit before begin => start ts >= commit ts), atomicity, no leftover lock; non-trivial = >=2 transactions wrote a common key and >=1 of them committed; distinct = program text + configuration"
 
-func TestHistories(t *testing.T) {
+func TestHistories(t *testing.T)    { histories(t, sim.Mock) }
+func TestHistoriesUni(t *testing.T) { histories(t, sim.Uni) }
+
+func histories(t *testing.T, backend sim.Backend) {
 	rec := ev.For(t, "C01", rule)
 	rapid.Check(t, func(t *rapid.T) {
-		backend := sim.Mock
-		nStores := rapid.SampledFrom([]int{1, 3}).Draw(t, "stores")
+		nStores := 1
+		if backend == sim.Mock {
+			nStores = rapid.SampledFrom([]int{1, 3}).Draw(t, "stores")
+		}
 		batch1 := rapid.Bool().Draw(t, "batchsize1")
 		conc1 := rapid.Bool().Draw(t, "concurrency1")
 		keys, splits, steps := GenProgram(t, backend, 2)
@@ -312,9 +363,10 @@ func TestHistories(t *testing.T) {
 				vs = append(vs, v.String())
 			}
 			t.Fatalf("history violates snapshot isolation / external consistency:\n  %s\n  config: backend=%v stores=%d batch1=%v conc1=%v splits=%q\n  program: %s\n  log:\n    %s\n  truth: %s",
-				strings.Join(vs, "\n  "), backend, nStores, batch1, conc1, splits, prog, strings.Join(res.w.Log, "\n    "), res.truth.Describe(keys))
+				strings.Join(vs, "\n  "), backend, nStores, batch1, conc1, splits, prog, strings.Join(res.w.Log, "\n    "), res.truth.Describe(keys)+"\n  rpc trace:\n    "+strings.ReplaceAll(res.w.Cl.Trace.Describe(), "\n", "\n    "))
 		}
 		recs := res.w.Recs()
+		entries := res.w.Cl.Trace.Since(0)
 		var classes []string
 		for _, r := range recs {
 			cls := "optimistic"
@@ -322,6 +374,9 @@ func TestHistories(t *testing.T) {
 				cls = "pessimistic"
 			}
 			classes = append(classes, cls, "commit="+r.CommitClass)
+			if r.Ended == "commit" {
+				classes = append(classes, "path="+sim.ModeOf(entries, r.StartTS))
+			}
 		}
 		gates := strings.Count(prog, "gate")
 		classes = append(classes, fmt.Sprintf("gates=%v", gates > 0), fmt.Sprintf("stores=%d", nStores), fmt.Sprintf("read-errors=%v", res.w.ReadErrs > 0))
